@@ -192,6 +192,15 @@ func chunkStart(sizes []int, k int) int {
 func runC17(a vh.Args, o *vh.Oracle, r *vh.Result) error {
 	r.Rule = "case = (blob, index sizes, n, digest, one mutation of the file); non-trivial = index has >1 chunk and the file differs from the blob (one-byte flip at a chosen chunk incl. every batch-boundary chunk, truncation, extension, swap of equal-size chunks); distinct by (mutation, n, digest, chunk count, file prefix)"
 	if a.Replay != "" {
+		var cc c17CancelCase
+		if err := readJSON(a.Replay, &cc); err == nil && cc.Kind != "" {
+			for i := 0; i < 20; i++ {
+				if err := c17CancelOne(a, r, &cc); err != nil {
+					return err
+				}
+			}
+			return nil
+		}
 		var c c17Case
 		if err := readJSON(a.Replay, &c); err != nil {
 			return err
@@ -316,6 +325,9 @@ func runC17(a vh.Args, o *vh.Oracle, r *vh.Result) error {
 				}
 			}
 		}
+	}
+	if err := c17Cancel(a, r, rng); err != nil {
+		return err
 	}
 	return c17CLI(a, r, rng)
 }
